@@ -48,4 +48,8 @@ def deductive(tier="quick", seed=0):
         "finding for n >= 5]",
         "the canonical form depends only on the state: T-rref + canonical_form (a),(b) [bounded stand-in]",
     ]
+    # canonical_form (a) group preservation, step by step: contracts/stab_group.py (G)
+    from contracts import stab_group
+
+    d = stab_group.extend_deductive(d, C, with_inverse=False)
     return d
